@@ -198,3 +198,229 @@ theorem chain_run {inps : List (Tensor Cell)} {s r : St} {regs : List (Tensor Ce
       (fun val hv a ha => hPe val hv a (hmem a ha).1) hPW (fun a ha b hb hn => hcons a (hmem a ha).1 b hb hn)
       (hR1.mono hPe) hc
     exact ⟨hnd, hsub, he1, regs1 ++ regs2, T2, hrun2.assoc, hR2⟩
+
+/-! ### numpy broadcasting of aligned operands -/
+
+/-- The result of numpy's merge of two broadcast-compatible dimension lengths. -/
+def mergeV (x y : Nat) : Nat := if x == y then x else if x == 1 then y else x
+
+/-- The joint shape function of aligned operands (numpy folds from the right). -/
+def joinAll : List (Ax → Nat) → Ax → Nat
+  | [], _ => 1
+  | p :: ps, a => mergeV (p a) (joinAll ps a)
+
+/-- `p` gives every axis of `W` its length or 1. -/
+def Mask (W : List Ax) (p : Ax → Nat) : Prop := ∀ a ∈ W, p a = a.len ∨ p a = 1
+
+theorem mergeV_one (x : Nat) : mergeV x 1 = x := by
+  unfold mergeV
+  by_cases h : x = 1
+  · simp [h]
+  · simp [h]
+
+theorem joinAll_mask {W : List Ax} : ∀ {ps : List (Ax → Nat)}, (∀ p ∈ ps, Mask W p) → Mask W (joinAll ps)
+  | [], _ => fun _ _ => Or.inr rfl
+  | p :: ps, h => by
+    intro a ha
+    have h1 := h p (List.mem_cons_self ..) a ha
+    have h2 := joinAll_mask (ps := ps) (fun q hq => h q (List.mem_cons_of_mem _ hq)) a ha
+    simp only [joinAll, mergeV]
+    rcases h1 with h1 | h1 <;> rcases h2 with h2 | h2 <;> simp [h1, h2] <;> split <;> simp_all
+
+theorem joinAll_ne_one {a : Ax} : ∀ {ps : List (Ax → Nat)} {p : Ax → Nat}, p ∈ ps → p a ≠ 1 →
+    joinAll ps a ≠ 1
+  | [], _, h, _ => by simp at h
+  | q :: qs, p, h, hp => by
+    simp only [joinAll, mergeV]
+    rcases List.mem_cons.mp h with rfl | h'
+    · by_cases e : (p a == joinAll qs a) = true
+      · simp [e, hp]
+      · simp [e, hp]
+    · have ih := joinAll_ne_one (ps := qs) h' hp
+      by_cases e : (q a == joinAll qs a) = true
+      · have : q a = joinAll qs a := by simpa using e
+        simp [e, this, ih]
+      · by_cases e1 : (q a == 1) = true
+        · simp [e, e1, ih]
+        · simp only [e, e1, Bool.false_eq_true, if_false]
+          simpa using e1
+
+theorem mapM_zip_merge (g : Nat × Nat → IR.E Nat) (W : List Ax) (p q : Ax → Nat)
+    (hg : ∀ a ∈ W, g (p a, q a) = pure (mergeV (p a) (q a))) :
+    (List.zip (W.map p) (W.map q)).mapM g = pure (W.map (fun a => mergeV (p a) (q a))) := by
+  induction W with
+  | nil => rfl
+  | cons a W ih =>
+    simp only [List.map_cons, List.zip_cons_cons, List.mapM_cons, hg a (List.mem_cons_self ..),
+      ih (fun b hb => hg b (List.mem_cons_of_mem _ hb)), pure_bind]
+
+theorem replicate_eq_map_const {α : Type} (l : List α) : List.replicate l.length (1 : Nat) = l.map (fun _ => (1 : Nat)) := by
+  induction l with
+  | nil => rfl
+  | cons a l ih => simp [List.replicate_succ, ih]
+
+theorem broadcastShapes_rows (W : List Ax) : ∀ (ps : List (Ax → Nat)), ps ≠ [] → (∀ p ∈ ps, Mask W p) →
+    broadcastShapes (ps.map (fun p => W.map p)) = .ok (W.map (joinAll ps))
+  | [], h, _ => absurd rfl h
+  | [p], _, _ => by
+    simp only [List.map_cons, List.map_nil, broadcastShapes, pure_bind, List.length_map, List.length_nil, Nat.zero_le,
+      Nat.max_eq_left, Nat.sub_self, List.replicate_zero, List.nil_append, Nat.sub_zero, List.append_nil]
+    have hr : List.replicate W.length 1 = W.map (fun _ => 1) := replicate_eq_map_const W
+    rw [hr, mapM_zip_merge _ W p (fun _ => 1)]
+    · have : joinAll [p] = fun a => mergeV (p a) ((fun _ => 1) a) := by funext a; rfl
+      rw [this]; rfl
+    · intro a _
+      simp only [mergeV_one]
+      by_cases h : p a = 1
+      · simp [h]
+      · simp [h]
+  | p :: q :: qs, _, hm => by
+    have ih := broadcastShapes_rows W (q :: qs) (by simp) (fun r hr => hm r (List.mem_cons_of_mem _ hr))
+    have hmq := joinAll_mask (W := W) (ps := q :: qs) (fun r hr => hm r (List.mem_cons_of_mem _ hr))
+    have hmp := hm p (List.mem_cons_self ..)
+    rw [List.map_cons, broadcastShapes, ih]
+    simp only [ok_bind, List.length_map, Nat.max_self, Nat.sub_self, List.replicate_zero, List.nil_append]
+    rw [mapM_zip_merge _ W p (joinAll (q :: qs))]
+    · rfl
+    · intro a ha
+      simp only [mergeV]
+      rcases hmp a ha with h1 | h1 <;> rcases hmq a ha with h2 | h2
+      · simp [h1, h2]
+      · by_cases e : a.len = 1
+        · simp [h1, h2, e]
+        · simp [h1, h2, e]
+      · by_cases e : a.len = 1
+        · simp [h1, h2, e]
+        · have : ¬ (1 = a.len) := fun x => e x.symm
+          simp [h1, h2, this]
+      · simp [h1, h2]
+
+/-! ### one traced numpy call -/
+
+/-- An aligned operand: its register, its shape function on the output axes, and the cell it holds. -/
+structure Od where
+  reg : Nat
+  pre : Ax → Nat
+  c : (String → Nat) → Cell
+
+theorem filterMapM_ods (g : Arg → IR.E (Option (List Nat))) (W : List Ax) : ∀ ods : List Od,
+    (∀ d ∈ ods, g (.reg d.reg) = pure (some (W.map d.pre))) →
+    (ods.map (fun d => Arg.reg d.reg)).filterMapM g = pure (ods.map (fun d => W.map d.pre))
+  | [], _ => rfl
+  | d :: ds, h => by
+    rw [List.map_cons, List.filterMapM_cons, h d (List.mem_cons_self ..)]
+    simp only [pure_bind]
+    rw [filterMapM_ods g W ds (fun x hx => h x (List.mem_cons_of_mem _ hx))]
+    rfl
+
+theorem Tr.emit {inps : List (Tensor Cell)} {s : St} {regs : List (Tensor Cell)} (h : Tr inps s regs)
+    (i : Instr) (pl : Plan) (hp : planInstr (regs.map (·.shape)) i = .ok pl) (hl : pl.cells.length = prod pl.shape) :
+    Run inps (s.emit i pl.shape) (regs ++ [runPlan symAlg regs pl]) (runPlan symAlg regs pl) where
+  ev := by
+    simp only [St.emit, evalProg_append, h.ev, bind, Except.bind, evalProg, hp, pure, Except.pure]
+  next := by simp [St.emit, h.next]
+  reg := by
+    simp only [St.emit, ← h.next]
+    exact List.getElem?_concat_length
+  shape := rfl
+  len := by rw [runPlan_data]; simpa [runPlan] using hl
+
+theorem mask_valid {W : List Ax} {J : Ax → Nat} {val : String → Nat} (hJ : Mask W J) (hb : Bnd val W) :
+    Valid (W.map J) (W.map (fun a => if J a = 1 then 0 else val a.name)) := by
+  induction W with
+  | nil => exact Valid.nil
+  | cons a W ih =>
+    refine Valid.cons ?_ (ih (fun b hb' => hJ b (List.mem_cons_of_mem _ hb')) (fun b hb' => hb b (List.mem_cons_of_mem _ hb')))
+    have hv := hb a (List.mem_cons_self ..)
+    rcases hJ a (List.mem_cons_self ..) with h1 | h1
+    · by_cases e : J a = 1
+      · simp [e]
+      · simp only [e, if_false]; rw [h1]; exact hv
+    · simp [h1]
+
+/-- One numpy call on aligned operands: the result is again an aligned tensor; its cell is the elementary
+function applied to the operands' cells. -/
+theorem ewise_run {inps : List (Tensor Cell)} {s s' : St} {regs : List (Tensor Cell)} {W : List Ax}
+    {P : (String → Nat) → Prop} {f : String} (ods : List Od) (hne : ods ≠ []) (h : Tr inps s regs)
+    (hops : ∀ d ∈ ods, ∃ T, regs[d.reg]? = some T ∧ ReadsP P d.c T W d.pre)
+    (hmask : ∀ d ∈ ods, Mask W d.pre) (hPW : ∀ val, P val → Bnd val W)
+    (ops : List Opnd) (hreg : ops.map (·.reg) = ods.map (·.reg))
+    (hshape : ops.map (·.shape) = ods.map (fun d => W.map d.pre))
+    (hcall : ewiseCall f s ops = .ok s') :
+    ∃ T', Run inps s' (regs ++ [T']) T' ∧
+      ReadsP P (fun val => .app f (ods.map (fun d => d.c val))) T' W (joinAll (ods.map (·.pre))) := by
+  have hJ : Mask W (joinAll (ods.map (·.pre))) := joinAll_mask (by
+    intro p hp
+    obtain ⟨d, hd, rfl⟩ := List.mem_map.mp hp
+    exact hmask d hd)
+  have hbs : broadcastShapes (ops.map (·.shape)) = .ok (W.map (joinAll (ods.map (·.pre)))) := by
+    rw [hshape]
+    have := broadcastShapes_rows W (ods.map (·.pre)) (by simpa using hne) (by
+      intro p hp
+      obtain ⟨d, hd, rfl⟩ := List.mem_map.mp hp
+      exact hmask d hd)
+    simpa [List.map_map, Function.comp_def] using this
+  have hopsne : ops.isEmpty = false := by
+    cases ops with
+    | nil =>
+      cases ods with
+      | nil => exact absurd rfl hne
+      | cons d ds => simp at hreg
+    | cons o os => rfl
+  unfold ewiseCall at hcall
+  simp only [hopsne, Bool.false_eq_true, if_false, hbs, bind, Except.bind, pure, Except.pure, Except.ok.injEq] at hcall
+  subst hcall
+  have hargs : ops.map (fun o => Arg.reg o.reg) = ods.map (fun d => Arg.reg d.reg) := by
+    have h1 : ops.map (fun o => Arg.reg o.reg) = (ops.map (·.reg)).map Arg.reg := by simp [List.map_map]
+    rw [h1, hreg]; simp [List.map_map]
+  rw [hargs]
+  have hshapes : ∀ d ∈ ods, (regs.map (·.shape))[d.reg]? = some (W.map d.pre) := by
+    intro d hd
+    obtain ⟨T, hT, hR⟩ := hops d hd
+    rw [shapes_getElem? hT, hR.1]
+  have hpl : planInstr (regs.map (·.shape)) (.ewise f (ods.map (fun d => Arg.reg d.reg)))
+      = .ok (tabulate (W.map (joinAll (ods.map (·.pre)))) (fun o =>
+          .app f ((ods.map (fun d => Arg.reg d.reg)).map (fun a => match a with
+            | .reg r =>
+              let s := ((regs.map (·.shape))[r]?).getD []
+              .src r (ravel s (broadcastIndex s (W.map (joinAll (ods.map (·.pre)))) o))
+            | .lit i => .lit i)))) := by
+    have hemp : (ods.map (fun d => W.map d.pre)).isEmpty = false := by
+      cases ods with
+      | nil => exact absurd rfl hne
+      | cons d ds => rfl
+    rw [hshape] at hbs
+    simp only [planInstr]
+    rw [filterMapM_ods _ W ods (by
+      intro d hd
+      simp only [getShape, hshapes d hd]
+      rfl)]
+    simp only [pure_bind, hemp, Bool.false_eq_true, if_false, hbs, ok_bind]
+    rfl
+  have hr := h.emit _ _ hpl (tabulate_length _ _)
+  refine ⟨_, hr, rfl, ?_⟩
+  intro val hv
+  have hvalid := mask_valid hJ (hPW val hv)
+  rw [runPlan_data, List.getElem?_map, tabulate_getElem? _ _ _ hvalid]
+  simp only [Option.map_some, evalCell, evalCells_eq_map, List.map_map, symAlg, Option.some.injEq, Cell.app.injEq, true_and]
+  apply List.map_congr_left
+  intro d hd
+  obtain ⟨T, hT, hR⟩ := hops d hd
+  simp only [Function.comp, hshapes d hd, Option.getD_some]
+  have hbi : broadcastIndex (W.map d.pre) (W.map (joinAll (ods.map (·.pre))))
+      (W.map (fun a => if joinAll (ods.map (·.pre)) a = 1 then 0 else val a.name))
+      = W.map (fun a => if d.pre a = 1 then 0 else val a.name) := by
+    simp only [broadcastIndex, List.length_map, Nat.sub_self, List.drop_zero, List.zip_map', List.map_map]
+    apply List.map_congr_left
+    intro a _
+    simp only [Function.comp]
+    by_cases e : d.pre a = 1
+    · simp [e]
+    · have := joinAll_ne_one (a := a) (List.mem_map.mpr ⟨d, hd, rfl⟩) e
+      simp [e, this]
+  rw [hbi]
+  have := hR.2 val hv
+  have e2 := evalCell_src hT (ravel (W.map d.pre) (W.map (fun a => if d.pre a = 1 then 0 else val a.name)))
+  simp only [symAlg] at e2
+  rw [e2, this]
+  rfl
